@@ -58,7 +58,7 @@ def expr(t) -> str:
     if k == "flag":
         return " | ".join(f"Perm.{n}" for n in p) if p else "Perm(0)"
     if k == "weird":
-        return f"Weird({p})"
+        return f"WeirdBox({WEIRDBOX_ITEMS[p]})" if p in WEIRDBOX_ITEMS else f"Weird({p})"
     if k == "ext":
         data, suffix = p
         if suffix is None:
@@ -181,7 +181,7 @@ def gen_leaf(rng, hashable=False, allow=None):
     if k == "cls":
         return ("cls", rng.choice(CLASSES))
     if k == "weird":
-        return ("weird", rng.randint(0, 9))
+        return ("weird", rng.choice([0, 1, 2, 3, 4, 5, 6, 7, 8, 9, 10, 11, 13]))
     if k == "ext":
         if rng.random() < 0.5:
             return ("ext", ("t" + gen_str(rng, 5), rng.choice([None, None, ".txt", ".log"])))
@@ -247,8 +247,14 @@ def gen_value(rng, depth=3, hashable=False, allow=None, size=3):
 ORDER_GROUPS = ["int", "float", "str", "bytes", "inttuple", "intlist", "mixednum"]
 
 
+# payloads >= 10 of the "weird" kind: vp.WeirdBox(item); its representation embeds the *code* representation of the item
+WEIRDBOX_ITEMS = {10: "Color.RED", 11: "Color.BLUE", 13: "Perm.R | Perm.X"}
+
+
 def weird_repr(n):
-    """repr of vp.Weird(n)"""
+    """representation of vp.Weird(n) / vp.WeirdBox(item) as inline-snapshot records it"""
+    if n in WEIRDBOX_ITEMS:
+        return f"<WeirdBox {WEIRDBOX_ITEMS[n]}>"
     return [f"<Weird {n}>", f"Weird #{n}", f"weird={n}", f"Weird\n{n}"][n % 4]
 
 
@@ -349,7 +355,7 @@ def layout(t, rng: random.Random, handwritten=0.2, multiline=None, comments=True
     if k in ("bool", "none", "float", "complex", "enum", "cls", "flag", "weird", "ext"):
         e = expr(t)
         if k == "weird":
-            e = f"HasRepr(Weird, {weird_repr(p)!r})"
+            e = f"HasRepr(WeirdBox, {weird_repr(p)!r})" if p in WEIRDBOX_ITEMS else f"HasRepr(Weird, {weird_repr(p)!r})"
         if k == "ext":
             raise AssertionError("externals have no hand-written old text")
         if hw and k in ("bool", "float", "enum"):
